@@ -152,6 +152,29 @@ def in_final_rules(rep, fb, rule):
 
 
 
+def parallel_completion_on_partial_configuration(rep, fb, rule):
+    """the fast engine judges "all regions of the parallel are final" from the configuration while it is still being extended"""
+    f = fb.fn('uscxml::FastMicroStep::step')
+    sites = 0
+    for call in f.walk():
+        if call.get('callee', {}).get('q', '') != 'uscxml::MicroStepCallbacks::raiseDoneEvent':
+            continue
+        # the done event of a parallel: guarded by the emptiness of the scratch set
+        guards = [a_ for a_ in f.ancestors(call) if a_['k'] == 'IfStmt' and any(x['k'] == 'MemberExpr' and x['ref'].get('name') == '_tmpStates' for x in sub(a_['c'][0]))]
+        if not guards:
+            continue
+        sites += 1
+        loops = [a_ for a_ in f.ancestors(call) if a_['k'] in ('WhileStmt', 'ForStmt', 'DoStmt')]
+        outer = loops[-1] if loops else None
+        writes_cfg = outer is not None and any(x['k'] in ('CXXOperatorCallExpr', 'BinaryOperator') and x.get('op') == '=' and any(
+            y['k'] == 'MemberExpr' and y['ref'].get('name') == '_configuration' for y in sub(x['c'][1] if x['k'] == 'CXXOperatorCallExpr' else x['c'][0])) and any(
+            m[0] == 'BIT_SET_AT' for m in (x.get('mac') or [])) for x in sub(outer))
+        reads_cfg = any(x['k'] == 'MemberExpr' and x['ref'].get('name') == '_configuration' for l_ in loops[:-1] for x in sub(l_))
+        rep.check(not (writes_cfg and reads_cfg), rule, 'FastMicroStep|done.state of a parallel', locstr(call), 'the test "every region of the parallel is in a final state" %s' % (
+            'reads a complete configuration' if not (writes_cfg and reads_cfg) else 'walks _configuration inside the loop that is still entering states (loop at %s): regions later in document order are not active yet and do not count, so done.state.<parallel> is raised when the second of three regions reaches its final state although the third never will (the large engine answers per region)' % locstr(outer)))
+    rep.minimum(rule, sites, 1, 'done-event sites for parallel states in FastMicroStep::step')
+
+
 def fast_conflict_terms(fb, fi_):
     """terms under which FastMicroStep::init stores `true` into the conflict matrix.  Form-independent: a leaf condition of
     the per-pair loop is a term iff on every CFG path on which it evaluates to true the value stored into conflicts[j] is true
@@ -237,6 +260,7 @@ def run(rep, tier):
     rep.rule('R03.4', 'both engines use all terms of the conflict definition: the fast engine\'s precomputed matrix (same source, source ancestry both ways, exit-set overlap both ways) and the large engine\'s lazily filled cache (source ancestry both ways, exit-set overlap both ways)')
     rep.rule('R03.8', 'the large engine\'s lazily filled conflict cache is used like the fast engine\'s matrix: per step the compatible set only narrows (intersection) and the conflicting set only grows (same rule as C01 R01.14)')
     rep.rule('R03.7', 'both engines compare the closed exit intervals with non-strict comparisons (overlap and membership tests)')
+    rep.rule('R03.11', 'done.state of a parallel is judged on a complete picture: the engines do not decide "all regions are final" from a configuration that the same loop is still extending')
     rep.rule('R03.10', 'every active state is asked for transitions in the large engine too: the selection loop skips entries of the post-fix view only relative to the state just handled (same rule as C01 R01.19)')
     rep.rule('R03.9', 'closures are complete in both engines: set-valued relations are used whole, ancestor passes do not re-seat their iterator at an insertion, deep completion adds the ancestors of every member (same rules as C02 R02.11 / R02.12); a closure that one engine cuts short is an engine difference')
     rep.rule('R03.6', 'the fast engine\'s children relation holds direct children only (as in the large engine and in the transpiler tables): the bit is not set while walking up the ancestors')
@@ -363,6 +387,8 @@ def run(rep, tier):
             rep.ok('R03.7', sk[e].eng, '%d endpoint comparisons, all non-strict' % len(cmps))
     # ---- R03.6 children relation of the fast engine
     fast_children(rep, fb, 'R03.6')
+    # ---- R03.11
+    parallel_completion_on_partial_configuration(rep, fb, 'R03.11')
     # ---- R03.10 every active state is asked for transitions (shared with C01 R01.19; the fast engine walks a bitset by index)
     from .C01 import selection_cursor
     selection_cursor(rep, fb, 'R03.10')
